@@ -173,6 +173,12 @@ def run_case(oracle, model, case):
     line = "ws " + json.dumps(case, ensure_ascii=False)
     ro = oracle.ask(line)
     rm = model.ask(line)
+    # a busy machine is not a disagreement: an answer that did not arrive in time is asked for once more, alone and with a
+    # longer limit (a genuine hang or crash repeats)
+    if ro in ("TIMEOUT", "CRASH"):
+        ro = oracle.ask(line, timeout=600)
+    if rm in ("TIMEOUT", "CRASH"):
+        rm = model.ask(line, timeout=600)
     try:
         jo = json.loads(ro)
     except Exception:
